@@ -155,9 +155,10 @@ macro_rules! c12_proof {
     };
 }
 
-/// one (copy, |t|, |f|) instance of the matching check
+/// one (copy, |t|, |f|) instance: `matches` alone (one real function per harness keeps the
+/// formula small), judged by the reference on valid pairs, never panicking on any pair.
 macro_rules! matches_instance {
-    ($name:ident, $matches:path, $valid_topic:path, $valid_filter:path, $T:literal, $F:literal) => {
+    ($name:ident, $matches:path, $T:literal, $F:literal) => {
         c12_proof!(7, $name, {
             let tb: [u8; $T] = kani::any();
             let fb: [u8; $F] = kani::any();
@@ -168,16 +169,16 @@ macro_rules! matches_instance {
             let got = $matches(t, f);
             let vt = ref_valid_topic(&tb);
             let vf = ref_valid_filter(&fb);
-            assert!($valid_topic(t) == vt, "valid_topic: differs from the MQTT rule");
-            assert!($valid_filter(f) == vf, "valid_filter: differs from the MQTT rule");
             if vt && vf {
                 assert!(got == ref_matches(&tb, &fb), "matches: differs from the MQTT rules");
             }
             if tb.first() == Some(&b'$') {
                 assert!(!got, "matches: a $-topic must be matched by no filter");
             }
-            kani::cover!(vt && vf && got, "valid pair that matches");
-            kani::cover!(vt && vf && !got, "valid pair that does not match");
+            if $T > 0 && $F > 0 {
+                kani::cover!(vt && vf && got, "valid pair that matches");
+            }
+            kani::cover!(vt && !got, "pair that does not match");
         });
     };
 }
@@ -196,138 +197,183 @@ macro_rules! agree_instance {
             let c = rumqttd::protocol::matches(t, f);
             assert!(a == b, "matches: client v4 and client v5 disagree");
             assert!(a == c, "matches: client and broker disagree");
-            kani::cover!(a, "agreeing match");
+            kani::cover!(!a, "agreeing non-match");
         });
     };
 }
 
-/// validators on strings of N bytes, all three copies against the reference
-macro_rules! validators_instance {
-    ($name:ident, $N:literal) => {
+/// one validator of one copy on strings of N bytes against the reference
+macro_rules! validator_instance {
+    ($name:ident, $f:path, $reference:expr, $label:literal, $N:literal) => {
         c12_proof!(8, $name, {
             let sb: [u8; $N] = kani::any();
             kani::assume(alphabet_ok(&sb));
             let s = unsafe { core::str::from_utf8_unchecked(&sb) };
-            let vf = ref_valid_filter(&sb);
-            let vt = ref_valid_topic(&sb);
-            assert!(rumqttc::mqttbytes::valid_filter(s) == vf, "valid_filter: client v4");
-            assert!(rumqttc::v5::mqttbytes::valid_filter(s) == vf, "valid_filter: client v5");
-            assert!(rumqttd::protocol::valid_filter(s) == vf, "valid_filter: broker");
-            assert!(rumqttc::mqttbytes::valid_topic(s) == vt, "valid_topic: client v4");
-            assert!(rumqttc::v5::mqttbytes::valid_topic(s) == vt, "valid_topic: client v5");
-            assert!(rumqttd::protocol::valid_topic(s) == vt, "valid_topic: broker");
-            assert!(rumqttc::mqttbytes::has_wildcards(s) == !vt, "has_wildcards: client v4");
-            assert!(rumqttc::v5::mqttbytes::has_wildcards(s) == !vt, "has_wildcards: client v5");
-            assert!(rumqttd::protocol::has_wildcards(s) == !vt, "has_wildcards: broker");
-            kani::cover!(vf && $N > 0, "a valid filter");
-            kani::cover!(!vf, "an invalid filter");
+            let want: bool = $reference(&sb);
+            assert!($f(s) == want, $label);
+            if $N > 0 {
+                kani::cover!(want, "accepted");
+            }
+            kani::cover!(!want, "rejected");
         });
     };
 }
 
-matches_instance!(m_c4_t0_f0, rumqttc::mqttbytes::matches, rumqttc::mqttbytes::valid_topic, rumqttc::mqttbytes::valid_filter, 0, 0);
-matches_instance!(m_c5_t0_f0, rumqttc::v5::mqttbytes::matches, rumqttc::v5::mqttbytes::valid_topic, rumqttc::v5::mqttbytes::valid_filter, 0, 0);
-matches_instance!(m_d_t0_f0, rumqttd::protocol::matches, rumqttd::protocol::valid_topic, rumqttd::protocol::valid_filter, 0, 0);
+fn ref_has_wildcards(s: &[u8]) -> bool {
+    !ref_valid_topic(s)
+}
+
+matches_instance!(m_c4_t0_f0, rumqttc::mqttbytes::matches, 0, 0);
+matches_instance!(m_c5_t0_f0, rumqttc::v5::mqttbytes::matches, 0, 0);
+matches_instance!(m_d_t0_f0, rumqttd::protocol::matches, 0, 0);
 agree_instance!(agree_t0_f0, 0, 0);
-matches_instance!(m_c4_t0_f1, rumqttc::mqttbytes::matches, rumqttc::mqttbytes::valid_topic, rumqttc::mqttbytes::valid_filter, 0, 1);
-matches_instance!(m_c5_t0_f1, rumqttc::v5::mqttbytes::matches, rumqttc::v5::mqttbytes::valid_topic, rumqttc::v5::mqttbytes::valid_filter, 0, 1);
-matches_instance!(m_d_t0_f1, rumqttd::protocol::matches, rumqttd::protocol::valid_topic, rumqttd::protocol::valid_filter, 0, 1);
+matches_instance!(m_c4_t0_f1, rumqttc::mqttbytes::matches, 0, 1);
+matches_instance!(m_c5_t0_f1, rumqttc::v5::mqttbytes::matches, 0, 1);
+matches_instance!(m_d_t0_f1, rumqttd::protocol::matches, 0, 1);
 agree_instance!(agree_t0_f1, 0, 1);
-matches_instance!(m_c4_t0_f2, rumqttc::mqttbytes::matches, rumqttc::mqttbytes::valid_topic, rumqttc::mqttbytes::valid_filter, 0, 2);
-matches_instance!(m_c5_t0_f2, rumqttc::v5::mqttbytes::matches, rumqttc::v5::mqttbytes::valid_topic, rumqttc::v5::mqttbytes::valid_filter, 0, 2);
-matches_instance!(m_d_t0_f2, rumqttd::protocol::matches, rumqttd::protocol::valid_topic, rumqttd::protocol::valid_filter, 0, 2);
+matches_instance!(m_c4_t0_f2, rumqttc::mqttbytes::matches, 0, 2);
+matches_instance!(m_c5_t0_f2, rumqttc::v5::mqttbytes::matches, 0, 2);
+matches_instance!(m_d_t0_f2, rumqttd::protocol::matches, 0, 2);
 agree_instance!(agree_t0_f2, 0, 2);
-matches_instance!(m_c4_t0_f3, rumqttc::mqttbytes::matches, rumqttc::mqttbytes::valid_topic, rumqttc::mqttbytes::valid_filter, 0, 3);
-matches_instance!(m_c5_t0_f3, rumqttc::v5::mqttbytes::matches, rumqttc::v5::mqttbytes::valid_topic, rumqttc::v5::mqttbytes::valid_filter, 0, 3);
-matches_instance!(m_d_t0_f3, rumqttd::protocol::matches, rumqttd::protocol::valid_topic, rumqttd::protocol::valid_filter, 0, 3);
+matches_instance!(m_c4_t0_f3, rumqttc::mqttbytes::matches, 0, 3);
+matches_instance!(m_c5_t0_f3, rumqttc::v5::mqttbytes::matches, 0, 3);
+matches_instance!(m_d_t0_f3, rumqttd::protocol::matches, 0, 3);
 agree_instance!(agree_t0_f3, 0, 3);
-matches_instance!(m_c4_t0_f4, rumqttc::mqttbytes::matches, rumqttc::mqttbytes::valid_topic, rumqttc::mqttbytes::valid_filter, 0, 4);
-matches_instance!(m_c5_t0_f4, rumqttc::v5::mqttbytes::matches, rumqttc::v5::mqttbytes::valid_topic, rumqttc::v5::mqttbytes::valid_filter, 0, 4);
-matches_instance!(m_d_t0_f4, rumqttd::protocol::matches, rumqttd::protocol::valid_topic, rumqttd::protocol::valid_filter, 0, 4);
+matches_instance!(m_c4_t0_f4, rumqttc::mqttbytes::matches, 0, 4);
+matches_instance!(m_c5_t0_f4, rumqttc::v5::mqttbytes::matches, 0, 4);
+matches_instance!(m_d_t0_f4, rumqttd::protocol::matches, 0, 4);
 agree_instance!(agree_t0_f4, 0, 4);
-matches_instance!(m_c4_t1_f0, rumqttc::mqttbytes::matches, rumqttc::mqttbytes::valid_topic, rumqttc::mqttbytes::valid_filter, 1, 0);
-matches_instance!(m_c5_t1_f0, rumqttc::v5::mqttbytes::matches, rumqttc::v5::mqttbytes::valid_topic, rumqttc::v5::mqttbytes::valid_filter, 1, 0);
-matches_instance!(m_d_t1_f0, rumqttd::protocol::matches, rumqttd::protocol::valid_topic, rumqttd::protocol::valid_filter, 1, 0);
+matches_instance!(m_c4_t1_f0, rumqttc::mqttbytes::matches, 1, 0);
+matches_instance!(m_c5_t1_f0, rumqttc::v5::mqttbytes::matches, 1, 0);
+matches_instance!(m_d_t1_f0, rumqttd::protocol::matches, 1, 0);
 agree_instance!(agree_t1_f0, 1, 0);
-matches_instance!(m_c4_t1_f1, rumqttc::mqttbytes::matches, rumqttc::mqttbytes::valid_topic, rumqttc::mqttbytes::valid_filter, 1, 1);
-matches_instance!(m_c5_t1_f1, rumqttc::v5::mqttbytes::matches, rumqttc::v5::mqttbytes::valid_topic, rumqttc::v5::mqttbytes::valid_filter, 1, 1);
-matches_instance!(m_d_t1_f1, rumqttd::protocol::matches, rumqttd::protocol::valid_topic, rumqttd::protocol::valid_filter, 1, 1);
+matches_instance!(m_c4_t1_f1, rumqttc::mqttbytes::matches, 1, 1);
+matches_instance!(m_c5_t1_f1, rumqttc::v5::mqttbytes::matches, 1, 1);
+matches_instance!(m_d_t1_f1, rumqttd::protocol::matches, 1, 1);
 agree_instance!(agree_t1_f1, 1, 1);
-matches_instance!(m_c4_t1_f2, rumqttc::mqttbytes::matches, rumqttc::mqttbytes::valid_topic, rumqttc::mqttbytes::valid_filter, 1, 2);
-matches_instance!(m_c5_t1_f2, rumqttc::v5::mqttbytes::matches, rumqttc::v5::mqttbytes::valid_topic, rumqttc::v5::mqttbytes::valid_filter, 1, 2);
-matches_instance!(m_d_t1_f2, rumqttd::protocol::matches, rumqttd::protocol::valid_topic, rumqttd::protocol::valid_filter, 1, 2);
+matches_instance!(m_c4_t1_f2, rumqttc::mqttbytes::matches, 1, 2);
+matches_instance!(m_c5_t1_f2, rumqttc::v5::mqttbytes::matches, 1, 2);
+matches_instance!(m_d_t1_f2, rumqttd::protocol::matches, 1, 2);
 agree_instance!(agree_t1_f2, 1, 2);
-matches_instance!(m_c4_t1_f3, rumqttc::mqttbytes::matches, rumqttc::mqttbytes::valid_topic, rumqttc::mqttbytes::valid_filter, 1, 3);
-matches_instance!(m_c5_t1_f3, rumqttc::v5::mqttbytes::matches, rumqttc::v5::mqttbytes::valid_topic, rumqttc::v5::mqttbytes::valid_filter, 1, 3);
-matches_instance!(m_d_t1_f3, rumqttd::protocol::matches, rumqttd::protocol::valid_topic, rumqttd::protocol::valid_filter, 1, 3);
+matches_instance!(m_c4_t1_f3, rumqttc::mqttbytes::matches, 1, 3);
+matches_instance!(m_c5_t1_f3, rumqttc::v5::mqttbytes::matches, 1, 3);
+matches_instance!(m_d_t1_f3, rumqttd::protocol::matches, 1, 3);
 agree_instance!(agree_t1_f3, 1, 3);
-matches_instance!(m_c4_t1_f4, rumqttc::mqttbytes::matches, rumqttc::mqttbytes::valid_topic, rumqttc::mqttbytes::valid_filter, 1, 4);
-matches_instance!(m_c5_t1_f4, rumqttc::v5::mqttbytes::matches, rumqttc::v5::mqttbytes::valid_topic, rumqttc::v5::mqttbytes::valid_filter, 1, 4);
-matches_instance!(m_d_t1_f4, rumqttd::protocol::matches, rumqttd::protocol::valid_topic, rumqttd::protocol::valid_filter, 1, 4);
+matches_instance!(m_c4_t1_f4, rumqttc::mqttbytes::matches, 1, 4);
+matches_instance!(m_c5_t1_f4, rumqttc::v5::mqttbytes::matches, 1, 4);
+matches_instance!(m_d_t1_f4, rumqttd::protocol::matches, 1, 4);
 agree_instance!(agree_t1_f4, 1, 4);
-matches_instance!(m_c4_t2_f0, rumqttc::mqttbytes::matches, rumqttc::mqttbytes::valid_topic, rumqttc::mqttbytes::valid_filter, 2, 0);
-matches_instance!(m_c5_t2_f0, rumqttc::v5::mqttbytes::matches, rumqttc::v5::mqttbytes::valid_topic, rumqttc::v5::mqttbytes::valid_filter, 2, 0);
-matches_instance!(m_d_t2_f0, rumqttd::protocol::matches, rumqttd::protocol::valid_topic, rumqttd::protocol::valid_filter, 2, 0);
+matches_instance!(m_c4_t2_f0, rumqttc::mqttbytes::matches, 2, 0);
+matches_instance!(m_c5_t2_f0, rumqttc::v5::mqttbytes::matches, 2, 0);
+matches_instance!(m_d_t2_f0, rumqttd::protocol::matches, 2, 0);
 agree_instance!(agree_t2_f0, 2, 0);
-matches_instance!(m_c4_t2_f1, rumqttc::mqttbytes::matches, rumqttc::mqttbytes::valid_topic, rumqttc::mqttbytes::valid_filter, 2, 1);
-matches_instance!(m_c5_t2_f1, rumqttc::v5::mqttbytes::matches, rumqttc::v5::mqttbytes::valid_topic, rumqttc::v5::mqttbytes::valid_filter, 2, 1);
-matches_instance!(m_d_t2_f1, rumqttd::protocol::matches, rumqttd::protocol::valid_topic, rumqttd::protocol::valid_filter, 2, 1);
+matches_instance!(m_c4_t2_f1, rumqttc::mqttbytes::matches, 2, 1);
+matches_instance!(m_c5_t2_f1, rumqttc::v5::mqttbytes::matches, 2, 1);
+matches_instance!(m_d_t2_f1, rumqttd::protocol::matches, 2, 1);
 agree_instance!(agree_t2_f1, 2, 1);
-matches_instance!(m_c4_t2_f2, rumqttc::mqttbytes::matches, rumqttc::mqttbytes::valid_topic, rumqttc::mqttbytes::valid_filter, 2, 2);
-matches_instance!(m_c5_t2_f2, rumqttc::v5::mqttbytes::matches, rumqttc::v5::mqttbytes::valid_topic, rumqttc::v5::mqttbytes::valid_filter, 2, 2);
-matches_instance!(m_d_t2_f2, rumqttd::protocol::matches, rumqttd::protocol::valid_topic, rumqttd::protocol::valid_filter, 2, 2);
+matches_instance!(m_c4_t2_f2, rumqttc::mqttbytes::matches, 2, 2);
+matches_instance!(m_c5_t2_f2, rumqttc::v5::mqttbytes::matches, 2, 2);
+matches_instance!(m_d_t2_f2, rumqttd::protocol::matches, 2, 2);
 agree_instance!(agree_t2_f2, 2, 2);
-matches_instance!(m_c4_t2_f3, rumqttc::mqttbytes::matches, rumqttc::mqttbytes::valid_topic, rumqttc::mqttbytes::valid_filter, 2, 3);
-matches_instance!(m_c5_t2_f3, rumqttc::v5::mqttbytes::matches, rumqttc::v5::mqttbytes::valid_topic, rumqttc::v5::mqttbytes::valid_filter, 2, 3);
-matches_instance!(m_d_t2_f3, rumqttd::protocol::matches, rumqttd::protocol::valid_topic, rumqttd::protocol::valid_filter, 2, 3);
+matches_instance!(m_c4_t2_f3, rumqttc::mqttbytes::matches, 2, 3);
+matches_instance!(m_c5_t2_f3, rumqttc::v5::mqttbytes::matches, 2, 3);
+matches_instance!(m_d_t2_f3, rumqttd::protocol::matches, 2, 3);
 agree_instance!(agree_t2_f3, 2, 3);
-matches_instance!(m_c4_t2_f4, rumqttc::mqttbytes::matches, rumqttc::mqttbytes::valid_topic, rumqttc::mqttbytes::valid_filter, 2, 4);
-matches_instance!(m_c5_t2_f4, rumqttc::v5::mqttbytes::matches, rumqttc::v5::mqttbytes::valid_topic, rumqttc::v5::mqttbytes::valid_filter, 2, 4);
-matches_instance!(m_d_t2_f4, rumqttd::protocol::matches, rumqttd::protocol::valid_topic, rumqttd::protocol::valid_filter, 2, 4);
+matches_instance!(m_c4_t2_f4, rumqttc::mqttbytes::matches, 2, 4);
+matches_instance!(m_c5_t2_f4, rumqttc::v5::mqttbytes::matches, 2, 4);
+matches_instance!(m_d_t2_f4, rumqttd::protocol::matches, 2, 4);
 agree_instance!(agree_t2_f4, 2, 4);
-matches_instance!(m_c4_t3_f0, rumqttc::mqttbytes::matches, rumqttc::mqttbytes::valid_topic, rumqttc::mqttbytes::valid_filter, 3, 0);
-matches_instance!(m_c5_t3_f0, rumqttc::v5::mqttbytes::matches, rumqttc::v5::mqttbytes::valid_topic, rumqttc::v5::mqttbytes::valid_filter, 3, 0);
-matches_instance!(m_d_t3_f0, rumqttd::protocol::matches, rumqttd::protocol::valid_topic, rumqttd::protocol::valid_filter, 3, 0);
+matches_instance!(m_c4_t3_f0, rumqttc::mqttbytes::matches, 3, 0);
+matches_instance!(m_c5_t3_f0, rumqttc::v5::mqttbytes::matches, 3, 0);
+matches_instance!(m_d_t3_f0, rumqttd::protocol::matches, 3, 0);
 agree_instance!(agree_t3_f0, 3, 0);
-matches_instance!(m_c4_t3_f1, rumqttc::mqttbytes::matches, rumqttc::mqttbytes::valid_topic, rumqttc::mqttbytes::valid_filter, 3, 1);
-matches_instance!(m_c5_t3_f1, rumqttc::v5::mqttbytes::matches, rumqttc::v5::mqttbytes::valid_topic, rumqttc::v5::mqttbytes::valid_filter, 3, 1);
-matches_instance!(m_d_t3_f1, rumqttd::protocol::matches, rumqttd::protocol::valid_topic, rumqttd::protocol::valid_filter, 3, 1);
+matches_instance!(m_c4_t3_f1, rumqttc::mqttbytes::matches, 3, 1);
+matches_instance!(m_c5_t3_f1, rumqttc::v5::mqttbytes::matches, 3, 1);
+matches_instance!(m_d_t3_f1, rumqttd::protocol::matches, 3, 1);
 agree_instance!(agree_t3_f1, 3, 1);
-matches_instance!(m_c4_t3_f2, rumqttc::mqttbytes::matches, rumqttc::mqttbytes::valid_topic, rumqttc::mqttbytes::valid_filter, 3, 2);
-matches_instance!(m_c5_t3_f2, rumqttc::v5::mqttbytes::matches, rumqttc::v5::mqttbytes::valid_topic, rumqttc::v5::mqttbytes::valid_filter, 3, 2);
-matches_instance!(m_d_t3_f2, rumqttd::protocol::matches, rumqttd::protocol::valid_topic, rumqttd::protocol::valid_filter, 3, 2);
+matches_instance!(m_c4_t3_f2, rumqttc::mqttbytes::matches, 3, 2);
+matches_instance!(m_c5_t3_f2, rumqttc::v5::mqttbytes::matches, 3, 2);
+matches_instance!(m_d_t3_f2, rumqttd::protocol::matches, 3, 2);
 agree_instance!(agree_t3_f2, 3, 2);
-matches_instance!(m_c4_t3_f3, rumqttc::mqttbytes::matches, rumqttc::mqttbytes::valid_topic, rumqttc::mqttbytes::valid_filter, 3, 3);
-matches_instance!(m_c5_t3_f3, rumqttc::v5::mqttbytes::matches, rumqttc::v5::mqttbytes::valid_topic, rumqttc::v5::mqttbytes::valid_filter, 3, 3);
-matches_instance!(m_d_t3_f3, rumqttd::protocol::matches, rumqttd::protocol::valid_topic, rumqttd::protocol::valid_filter, 3, 3);
+matches_instance!(m_c4_t3_f3, rumqttc::mqttbytes::matches, 3, 3);
+matches_instance!(m_c5_t3_f3, rumqttc::v5::mqttbytes::matches, 3, 3);
+matches_instance!(m_d_t3_f3, rumqttd::protocol::matches, 3, 3);
 agree_instance!(agree_t3_f3, 3, 3);
-matches_instance!(m_c4_t3_f4, rumqttc::mqttbytes::matches, rumqttc::mqttbytes::valid_topic, rumqttc::mqttbytes::valid_filter, 3, 4);
-matches_instance!(m_c5_t3_f4, rumqttc::v5::mqttbytes::matches, rumqttc::v5::mqttbytes::valid_topic, rumqttc::v5::mqttbytes::valid_filter, 3, 4);
-matches_instance!(m_d_t3_f4, rumqttd::protocol::matches, rumqttd::protocol::valid_topic, rumqttd::protocol::valid_filter, 3, 4);
+matches_instance!(m_c4_t3_f4, rumqttc::mqttbytes::matches, 3, 4);
+matches_instance!(m_c5_t3_f4, rumqttc::v5::mqttbytes::matches, 3, 4);
+matches_instance!(m_d_t3_f4, rumqttd::protocol::matches, 3, 4);
 agree_instance!(agree_t3_f4, 3, 4);
-matches_instance!(m_c4_t4_f0, rumqttc::mqttbytes::matches, rumqttc::mqttbytes::valid_topic, rumqttc::mqttbytes::valid_filter, 4, 0);
-matches_instance!(m_c5_t4_f0, rumqttc::v5::mqttbytes::matches, rumqttc::v5::mqttbytes::valid_topic, rumqttc::v5::mqttbytes::valid_filter, 4, 0);
-matches_instance!(m_d_t4_f0, rumqttd::protocol::matches, rumqttd::protocol::valid_topic, rumqttd::protocol::valid_filter, 4, 0);
+matches_instance!(m_c4_t4_f0, rumqttc::mqttbytes::matches, 4, 0);
+matches_instance!(m_c5_t4_f0, rumqttc::v5::mqttbytes::matches, 4, 0);
+matches_instance!(m_d_t4_f0, rumqttd::protocol::matches, 4, 0);
 agree_instance!(agree_t4_f0, 4, 0);
-matches_instance!(m_c4_t4_f1, rumqttc::mqttbytes::matches, rumqttc::mqttbytes::valid_topic, rumqttc::mqttbytes::valid_filter, 4, 1);
-matches_instance!(m_c5_t4_f1, rumqttc::v5::mqttbytes::matches, rumqttc::v5::mqttbytes::valid_topic, rumqttc::v5::mqttbytes::valid_filter, 4, 1);
-matches_instance!(m_d_t4_f1, rumqttd::protocol::matches, rumqttd::protocol::valid_topic, rumqttd::protocol::valid_filter, 4, 1);
+matches_instance!(m_c4_t4_f1, rumqttc::mqttbytes::matches, 4, 1);
+matches_instance!(m_c5_t4_f1, rumqttc::v5::mqttbytes::matches, 4, 1);
+matches_instance!(m_d_t4_f1, rumqttd::protocol::matches, 4, 1);
 agree_instance!(agree_t4_f1, 4, 1);
-matches_instance!(m_c4_t4_f2, rumqttc::mqttbytes::matches, rumqttc::mqttbytes::valid_topic, rumqttc::mqttbytes::valid_filter, 4, 2);
-matches_instance!(m_c5_t4_f2, rumqttc::v5::mqttbytes::matches, rumqttc::v5::mqttbytes::valid_topic, rumqttc::v5::mqttbytes::valid_filter, 4, 2);
-matches_instance!(m_d_t4_f2, rumqttd::protocol::matches, rumqttd::protocol::valid_topic, rumqttd::protocol::valid_filter, 4, 2);
+matches_instance!(m_c4_t4_f2, rumqttc::mqttbytes::matches, 4, 2);
+matches_instance!(m_c5_t4_f2, rumqttc::v5::mqttbytes::matches, 4, 2);
+matches_instance!(m_d_t4_f2, rumqttd::protocol::matches, 4, 2);
 agree_instance!(agree_t4_f2, 4, 2);
-matches_instance!(m_c4_t4_f3, rumqttc::mqttbytes::matches, rumqttc::mqttbytes::valid_topic, rumqttc::mqttbytes::valid_filter, 4, 3);
-matches_instance!(m_c5_t4_f3, rumqttc::v5::mqttbytes::matches, rumqttc::v5::mqttbytes::valid_topic, rumqttc::v5::mqttbytes::valid_filter, 4, 3);
-matches_instance!(m_d_t4_f3, rumqttd::protocol::matches, rumqttd::protocol::valid_topic, rumqttd::protocol::valid_filter, 4, 3);
+matches_instance!(m_c4_t4_f3, rumqttc::mqttbytes::matches, 4, 3);
+matches_instance!(m_c5_t4_f3, rumqttc::v5::mqttbytes::matches, 4, 3);
+matches_instance!(m_d_t4_f3, rumqttd::protocol::matches, 4, 3);
 agree_instance!(agree_t4_f3, 4, 3);
-matches_instance!(m_c4_t4_f4, rumqttc::mqttbytes::matches, rumqttc::mqttbytes::valid_topic, rumqttc::mqttbytes::valid_filter, 4, 4);
-matches_instance!(m_c5_t4_f4, rumqttc::v5::mqttbytes::matches, rumqttc::v5::mqttbytes::valid_topic, rumqttc::v5::mqttbytes::valid_filter, 4, 4);
-matches_instance!(m_d_t4_f4, rumqttd::protocol::matches, rumqttd::protocol::valid_topic, rumqttd::protocol::valid_filter, 4, 4);
+matches_instance!(m_c4_t4_f4, rumqttc::mqttbytes::matches, 4, 4);
+matches_instance!(m_c5_t4_f4, rumqttc::v5::mqttbytes::matches, 4, 4);
+matches_instance!(m_d_t4_f4, rumqttd::protocol::matches, 4, 4);
 agree_instance!(agree_t4_f4, 4, 4);
-validators_instance!(validators_n0, 0);
-validators_instance!(validators_n1, 1);
-validators_instance!(validators_n2, 2);
-validators_instance!(validators_n3, 3);
-validators_instance!(validators_n4, 4);
-validators_instance!(validators_n5, 5);
+validator_instance!(vf_c4_n0, rumqttc::mqttbytes::valid_filter, ref_valid_filter, "valid_filter: differs from the MQTT rule", 0);
+validator_instance!(vt_c4_n0, rumqttc::mqttbytes::valid_topic, ref_valid_topic, "valid_topic: differs from the MQTT rule", 0);
+validator_instance!(hw_c4_n0, rumqttc::mqttbytes::has_wildcards, ref_has_wildcards, "has_wildcards: differs from the MQTT rule", 0);
+validator_instance!(vf_c5_n0, rumqttc::v5::mqttbytes::valid_filter, ref_valid_filter, "valid_filter: differs from the MQTT rule", 0);
+validator_instance!(vt_c5_n0, rumqttc::v5::mqttbytes::valid_topic, ref_valid_topic, "valid_topic: differs from the MQTT rule", 0);
+validator_instance!(hw_c5_n0, rumqttc::v5::mqttbytes::has_wildcards, ref_has_wildcards, "has_wildcards: differs from the MQTT rule", 0);
+validator_instance!(vf_d_n0, rumqttd::protocol::valid_filter, ref_valid_filter, "valid_filter: differs from the MQTT rule", 0);
+validator_instance!(vt_d_n0, rumqttd::protocol::valid_topic, ref_valid_topic, "valid_topic: differs from the MQTT rule", 0);
+validator_instance!(hw_d_n0, rumqttd::protocol::has_wildcards, ref_has_wildcards, "has_wildcards: differs from the MQTT rule", 0);
+validator_instance!(vf_c4_n1, rumqttc::mqttbytes::valid_filter, ref_valid_filter, "valid_filter: differs from the MQTT rule", 1);
+validator_instance!(vt_c4_n1, rumqttc::mqttbytes::valid_topic, ref_valid_topic, "valid_topic: differs from the MQTT rule", 1);
+validator_instance!(hw_c4_n1, rumqttc::mqttbytes::has_wildcards, ref_has_wildcards, "has_wildcards: differs from the MQTT rule", 1);
+validator_instance!(vf_c5_n1, rumqttc::v5::mqttbytes::valid_filter, ref_valid_filter, "valid_filter: differs from the MQTT rule", 1);
+validator_instance!(vt_c5_n1, rumqttc::v5::mqttbytes::valid_topic, ref_valid_topic, "valid_topic: differs from the MQTT rule", 1);
+validator_instance!(hw_c5_n1, rumqttc::v5::mqttbytes::has_wildcards, ref_has_wildcards, "has_wildcards: differs from the MQTT rule", 1);
+validator_instance!(vf_d_n1, rumqttd::protocol::valid_filter, ref_valid_filter, "valid_filter: differs from the MQTT rule", 1);
+validator_instance!(vt_d_n1, rumqttd::protocol::valid_topic, ref_valid_topic, "valid_topic: differs from the MQTT rule", 1);
+validator_instance!(hw_d_n1, rumqttd::protocol::has_wildcards, ref_has_wildcards, "has_wildcards: differs from the MQTT rule", 1);
+validator_instance!(vf_c4_n2, rumqttc::mqttbytes::valid_filter, ref_valid_filter, "valid_filter: differs from the MQTT rule", 2);
+validator_instance!(vt_c4_n2, rumqttc::mqttbytes::valid_topic, ref_valid_topic, "valid_topic: differs from the MQTT rule", 2);
+validator_instance!(hw_c4_n2, rumqttc::mqttbytes::has_wildcards, ref_has_wildcards, "has_wildcards: differs from the MQTT rule", 2);
+validator_instance!(vf_c5_n2, rumqttc::v5::mqttbytes::valid_filter, ref_valid_filter, "valid_filter: differs from the MQTT rule", 2);
+validator_instance!(vt_c5_n2, rumqttc::v5::mqttbytes::valid_topic, ref_valid_topic, "valid_topic: differs from the MQTT rule", 2);
+validator_instance!(hw_c5_n2, rumqttc::v5::mqttbytes::has_wildcards, ref_has_wildcards, "has_wildcards: differs from the MQTT rule", 2);
+validator_instance!(vf_d_n2, rumqttd::protocol::valid_filter, ref_valid_filter, "valid_filter: differs from the MQTT rule", 2);
+validator_instance!(vt_d_n2, rumqttd::protocol::valid_topic, ref_valid_topic, "valid_topic: differs from the MQTT rule", 2);
+validator_instance!(hw_d_n2, rumqttd::protocol::has_wildcards, ref_has_wildcards, "has_wildcards: differs from the MQTT rule", 2);
+validator_instance!(vf_c4_n3, rumqttc::mqttbytes::valid_filter, ref_valid_filter, "valid_filter: differs from the MQTT rule", 3);
+validator_instance!(vt_c4_n3, rumqttc::mqttbytes::valid_topic, ref_valid_topic, "valid_topic: differs from the MQTT rule", 3);
+validator_instance!(hw_c4_n3, rumqttc::mqttbytes::has_wildcards, ref_has_wildcards, "has_wildcards: differs from the MQTT rule", 3);
+validator_instance!(vf_c5_n3, rumqttc::v5::mqttbytes::valid_filter, ref_valid_filter, "valid_filter: differs from the MQTT rule", 3);
+validator_instance!(vt_c5_n3, rumqttc::v5::mqttbytes::valid_topic, ref_valid_topic, "valid_topic: differs from the MQTT rule", 3);
+validator_instance!(hw_c5_n3, rumqttc::v5::mqttbytes::has_wildcards, ref_has_wildcards, "has_wildcards: differs from the MQTT rule", 3);
+validator_instance!(vf_d_n3, rumqttd::protocol::valid_filter, ref_valid_filter, "valid_filter: differs from the MQTT rule", 3);
+validator_instance!(vt_d_n3, rumqttd::protocol::valid_topic, ref_valid_topic, "valid_topic: differs from the MQTT rule", 3);
+validator_instance!(hw_d_n3, rumqttd::protocol::has_wildcards, ref_has_wildcards, "has_wildcards: differs from the MQTT rule", 3);
+validator_instance!(vf_c4_n4, rumqttc::mqttbytes::valid_filter, ref_valid_filter, "valid_filter: differs from the MQTT rule", 4);
+validator_instance!(vt_c4_n4, rumqttc::mqttbytes::valid_topic, ref_valid_topic, "valid_topic: differs from the MQTT rule", 4);
+validator_instance!(hw_c4_n4, rumqttc::mqttbytes::has_wildcards, ref_has_wildcards, "has_wildcards: differs from the MQTT rule", 4);
+validator_instance!(vf_c5_n4, rumqttc::v5::mqttbytes::valid_filter, ref_valid_filter, "valid_filter: differs from the MQTT rule", 4);
+validator_instance!(vt_c5_n4, rumqttc::v5::mqttbytes::valid_topic, ref_valid_topic, "valid_topic: differs from the MQTT rule", 4);
+validator_instance!(hw_c5_n4, rumqttc::v5::mqttbytes::has_wildcards, ref_has_wildcards, "has_wildcards: differs from the MQTT rule", 4);
+validator_instance!(vf_d_n4, rumqttd::protocol::valid_filter, ref_valid_filter, "valid_filter: differs from the MQTT rule", 4);
+validator_instance!(vt_d_n4, rumqttd::protocol::valid_topic, ref_valid_topic, "valid_topic: differs from the MQTT rule", 4);
+validator_instance!(hw_d_n4, rumqttd::protocol::has_wildcards, ref_has_wildcards, "has_wildcards: differs from the MQTT rule", 4);
+validator_instance!(vf_c4_n5, rumqttc::mqttbytes::valid_filter, ref_valid_filter, "valid_filter: differs from the MQTT rule", 5);
+validator_instance!(vt_c4_n5, rumqttc::mqttbytes::valid_topic, ref_valid_topic, "valid_topic: differs from the MQTT rule", 5);
+validator_instance!(hw_c4_n5, rumqttc::mqttbytes::has_wildcards, ref_has_wildcards, "has_wildcards: differs from the MQTT rule", 5);
+validator_instance!(vf_c5_n5, rumqttc::v5::mqttbytes::valid_filter, ref_valid_filter, "valid_filter: differs from the MQTT rule", 5);
+validator_instance!(vt_c5_n5, rumqttc::v5::mqttbytes::valid_topic, ref_valid_topic, "valid_topic: differs from the MQTT rule", 5);
+validator_instance!(hw_c5_n5, rumqttc::v5::mqttbytes::has_wildcards, ref_has_wildcards, "has_wildcards: differs from the MQTT rule", 5);
+validator_instance!(vf_d_n5, rumqttd::protocol::valid_filter, ref_valid_filter, "valid_filter: differs from the MQTT rule", 5);
+validator_instance!(vt_d_n5, rumqttd::protocol::valid_topic, ref_valid_topic, "valid_topic: differs from the MQTT rule", 5);
+validator_instance!(hw_d_n5, rumqttd::protocol::has_wildcards, ref_has_wildcards, "has_wildcards: differs from the MQTT rule", 5);
